@@ -30,7 +30,7 @@ PROP = {'technique': 'property-based testing (rapid) of the rate negotiation lat
  'tests': [{'name': 'TestVerifC10_HeaderCodec', 'unit': PROTO, 'quick': 50000, 'thorough': 400000, 'shards_thorough': 4},
            {'name': 'TestVerifC10_Regress_RateAbove2p63', 'unit': SRV, 'kind': 'plain',
             'timeout_quick': 300, 'timeout_thorough': 300},
-           {'name': 'TestVerifC10_Negotiate', 'unit': SRV, 'quick': 150, 'shards': 2, 'thorough': 1500, 'shards_thorough': 12,
+           {'name': 'TestVerifC10_Negotiate', 'unit': SRV, 'quick': 150, 'shards': 2, 'thorough': 4000, 'shards_thorough': 16,
             'timeout_quick': 600, 'timeout_thorough': 1500},
            {'name': 'TestVerifC10_RawClientHeader', 'unit': SRV, 'quick': 120, 'shards': 1, 'thorough': 1000, 'shards_thorough': 4,
             'timeout_quick': 600, 'timeout_thorough': 1500},
